@@ -600,3 +600,28 @@ PROPS.update({
 PROPS["C46"]["lean"] = PROPS["C46"]["lean"] + ["IbcVerif.Props.C46Admin"]
 PROPS["C46"]["engines"] = PROPS["C46"]["engines"] + [{"bin": "world", "model": "purefn", "groups": ["authority"], "n": (3, 60), "monitor": (2, 40), "workers": 8}]
 PROPS["C46"]["assumptions"] = ["wasm StoreCode / RemoveChecksum / MigrateContract start with the same sdk.ValidateAuthority call (08-wasm is a separate Go module whose keeper needs a wasm VM; the gate is covered by the generic Admin.handler theorems and by reading the three call sites, not by an engine)"]
+
+# chain cluster: two-chain agreement halves of C12 / C13 (Lean only; Model/ChainPair.lean = two L3 chains,
+# handshake proof verdicts DERIVED from the counterparty's current store; no new engine)
+PAIR_NOTE = ("two-chain agreement (Props/C1xAgree) is proved over ALL interleavings of ops on two copies of the L3 chain model whose channel/connection "
+             "handshake proof verdicts are derived under HonestClient: a handshake proof verifies iff the counterparty's CURRENT store holds, under the key the handler "
+             "proves, exactly the end the handler constructs (handshake.go) and the connection's counterparty prefix is the real store prefix; all other inputs "
+             "(callbacks, signers, client status, packet proofs, scheduling) stay adversarial. Tie to the code: each single-chain step is the L3 `step` checked by the "
+             "chain correspondence engine; that real clients behave like the derivation is exercised by the world engine's real-chain handshakes (07-tendermint + IAVL proofs)")
+PROPS["C12"]["lean"] = PROPS["C12"]["lean"] + ["IbcVerif.Props.C12Agree"]
+PROPS["C12"]["assumptions"] = ["HonestClient for the agreement theorems: handshake proof verdicts are derived from the counterparty's current state (always up-to-date light client); proofs of STALE heights are not modelled (an end proved at an old height may since have moved on, e.g. OPEN->CLOSED)",
+                               "single-chain theorems: the proof verdict is an input and is shown to be required"]
+PROPS["C12"]["trusted"] = PROPS["C12"]["trusted"] + [PAIR_NOTE]
+PROPS["C12"]["level_text"] = ("full under HonestClient(current state): (single chain, all histories) channel ends change only INIT->OPEN, TRYOPEN->OPEN, non-CLOSED->CLOSED; CLOSED terminal; ordering/port/hops immutable, "
+                              "version and counterparty channel id change only at ACK; new ends start INIT/TRYOPEN under a fresh id; TRY/ACK/CONFIRM/CLOSE-CONFIRM need a positive proof verdict on an Active client and an OPEN connection. "
+                              "(two chains, all interleavings) both_open_agree: two OPEN ends one of which names the other name each other (port+channel ids), have equal ordering and version, one hop each, the hop connections are OPEN and are each other's counterparty connections; "
+                              "open_requires_counterparty_state: an end becomes OPEN only by its own ACK/CONFIRM and then the counterparty holds the TRYOPEN (ACK) / OPEN (CONFIRM) end with matching ordering, version, ids and hop; "
+                              "close_confirm_requires_closed: CLOSE-CONFIRM succeeds only while the counterparty end is CLOSED. Monitor (single chain): per-step channel transitions.")
+PROPS["C13"]["lean"] = PROPS["C13"]["lean"] + ["IbcVerif.Props.C13Agree"]
+PROPS["C13"]["assumptions"] = [a for a in PROPS["C13"]["assumptions"] if "two-chain agreement needs the world model" not in a] + [
+    "HonestClient for the agreement theorems: handshake proof verdicts derived from the counterparty's current state; stale-height proofs not modelled; single-chain handshake theorems take the verdict as an input"]
+PROPS["C13"]["trusted"] = PROPS["C13"]["trusted"] + [PAIR_NOTE]
+PROPS["C13"]["level_text"] = (PROPS["C13"]["level_text"].replace("partial until the chain cluster adds the handshake state machine: ", "") +
+                              " | agreement (two L3 chains, HonestClient(current state), all interleavings): both_open_conn_agree: two OPEN connection ends one of which names the other name each other, "
+                              "have crosswise-equal client ids, the same delay period and the same single version; conn_open_requires_counterparty_state: an end becomes OPEN only by its own ACK/CONFIRM "
+                              "and then the counterparty holds the TRYOPEN (ACK) / OPEN (CONFIRM) end with crosswise client ids, this connection id, equal delay and versions, and both prefixes are the real store prefix.")
